@@ -13,7 +13,7 @@ GEN_DEPS = []
 RULE = ('policies (wildcard or specific origin, credentials, allow/expose header lists of 0-3 names, max-age) x application trees (method subsets, one route registered by two separate items, nested mounts) x 16 requests '
         '(simple requests of every method to registered and unregistered paths, preflights with every requested method incl. HEAD/OPTIONS/lower-case/unknown, with and without requested headers, bare OPTIONS); '
         'non-trivial = a preflight, or a simple request that ends in 404; distinct by canonical JSON')
-ASSUMPTIONS = ['"every response" = every response the router produces for a parsed request; the CORS fang is the fang of the root application',
+ASSUMPTIONS = ['"every response" = every response the router produces for a parsed request inside the scope of the CORS fang (the root application, or a mounted one: then the requests go under its prefix)',
                '"the requested method is registered for that path" is membership in the advertised list (so HEAD with GET, and OPTIONS, succeed); method names are case-sensitive (DESIGN 6.0)']
 H = ['X-Token', 'Content-Type', 'Authorization', 'X-Requested-With']
 
@@ -66,7 +66,10 @@ def mk(rng):
         elif r < 0.92: reqs.append({'m': 'OPTIONS', 'p': p.hex(), 'origin': True, 'acrm': rng.choice(['GET', 'POST', 'PUT', 'PATCH', 'DELETE', 'HEAD', 'OPTIONS', 'get', 'TRACE', 'GET ']).strip() or 'GET',
                                     'acrh': rng.choice([None, 'X-Token', 'content-type, x-requested-with'])})
         else: reqs.append({'m': 'OPTIONS', 'p': p.hex(), 'origin': True, 'acrm': None, 'acrh': None})
-    return {'case': {'cors': policy_gen(rng), 'app': app, 'reqs': reqs}}
+    for r in reqs: r['hcase'] = rng.choice([0, 0, 1, 2, 3])          # header names in any letter case
+    case = {'cors': policy_gen(rng), 'app': app, 'reqs': reqs}
+    if rng.random() < 0.25: case['cors_at'] = rng.choice(['/api', '/v1/in'])          # the policy on a mounted application: the same requests under that prefix
+    return {'case': case}
 
 
 def corpus():
